@@ -359,7 +359,10 @@ class Exec:
             if h in ("list", "deque"):
                 return L.slen(self.hget(st, "$seq", sv.t)) != 0
             if is_dict_hint(h):
-                return L.slen(self.hget(st, "$dkeys", sv.t)) != 0
+                # second conjunct: an instance of axiom at_mem (a non-empty key sequence has its first element as a member); it only
+                # hands the solver the ground term it needs to conclude "no key => empty" and does not change the meaning
+                ks = self.hget(st, "$dkeys", sv.t)
+                return And(L.slen(ks) != 0, Implies(L.slen(ks) != 0, L.mem(ks, L.at(ks, IntVal(0)))))
             if h in ("set", "frozenset") or (h in CLASSES and CLASSES[h].isa == "set"):
                 return self.set_nonempty(self.hget(st, "$set", sv.t))
             if h in CLASSES or h == "fn":
@@ -2807,10 +2810,12 @@ def _patch_loops():
             seq, elem = self.iter_view(it_node, itsv, st1)
             n = L.slen(seq) if seq is not None else elem["n"]
             st_entry = st1.copy(ghost=dict(st1.ghost, **{f"$loop{k_ord}_entry": st1}))
-            self.check_inv(k_ord, st_entry, {"_i": sv_int(0), f"_i{k_ord}": sv_int(0), "_n": SV("int", n)}, s, "entry")
+            self.check_inv(k_ord, st_entry, dict({"_i": sv_int(0), f"_i{k_ord}": sv_int(0), "_n": SV("int", n)}, **({"_seq": SV("seq", seq)} if seq is not None else {})), s, "entry")
             sth = self.havoc_loop(s, st_entry, k_ord)
             i = self.fresh(f"i{k_ord}", IntSort())
             binds = {"_i": SV("int", i, "nonneg"), f"_i{k_ord}": SV("int", i, "nonneg"), "_n": SV("int", n)}
+            if seq is not None:
+                binds["_seq"] = SV("seq", seq)       # the iterated sequence (needed when the loop runs over an unnamed value)
             sth = sth.assume(0 <= i, i <= n)
             sth = self.assume_inv(k_ord, sth, binds)
             # exit
@@ -2838,10 +2843,16 @@ def _patch_loops():
                 el = elem["at"](i)
             def end_body(se):
                 b2 = {"_i": SV("int", i + 1), f"_i{k_ord}": SV("int", i + 1), "_n": SV("int", n)}
+                if seq is not None:
+                    b2["_seq"] = SV("seq", seq)
                 self.check_inv(k_ord, se, b2, s, "preserved")
                 self.check_loop_frame(k_ord, se, s)
                 if itsv.kind == "v" and itsv.hint in ("list", "deque"):
                     self.oblige(se, self.hget(se, "$seq", itsv.t) == seq, f"loop{k_ord}.iterated-list-unchanged", s)
+                if itsv.kind == "py" and isinstance(itsv.py, tuple) and itsv.py[0] == "items":
+                    dt = itsv.py[1][0].t
+                    self.oblige(se, And(self.hget(se, "$dkeys", dt) == seq, self.hget(se, "$dval", dt) == self.hget(st1, "$dval", dt)),
+                                f"loop{k_ord}.iterated-dict-unchanged", s)
                 self.paths += 1
             bctx = Ctx(end_body, ctx.ret, ctx.exc, lambda sbk: ctx.k(sbk.copy(notes=sbk.notes + (f"loop{k_ord}:break",))), end_body)
             self.assign(s.target, el, sb, bctx, lambda s3: self.ex_block(s.body, s3, bctx))
@@ -2856,6 +2867,15 @@ def _patch_loops():
                 return self.ev_generator_call(fnc, spec, node, st, ctx, k)
         if isinstance(node, ast.Call) and isinstance(node.func, ast.Name) and node.func.id in ("range", "enumerate", "zip", "reversed"):
             return self.ev_list(node.args, st, ctx, lambda svs, st2: k(SV("py", py=(node.func.id, svs)), st2))
+        if (isinstance(node, ast.Call) and isinstance(node.func, ast.Attribute) and node.func.attr == "items" and not node.args and not node.keywords
+                and ast.unparse(node.func) not in self.c.callees):
+            # for k, v in d.items(): an index-aligned view (key_i, d[key_i]) of the dictionary as it is at loop entry; the loop must leave the
+            # dictionary alone (obligation `iterated-dict-unchanged` at the end of the body; CPython raises RuntimeError on a size change)
+            def got_d(d, st2):
+                if d.kind != "v" or not is_dict_hint(d.hint):
+                    raise OutOfSubset("items() of a value that is not a dictionary")
+                k(SV("py", py=("items", [d], node.func.value)), st2)
+            return self.ev(node.func.value, st, ctx, got_d)
         self.ev(node, st, ctx, k)
     E.ev_iter = ev_iter
 
@@ -2921,6 +2941,13 @@ def _patch_loops():
             et = self.elem_type(node.args[0], src)
             kind, hint = type_hint(et)
             return sq, (lambda i: SV("tuple", items=[SV("int", i), SV("v", L.at(sq, i), hint)]))
+        if itsv.kind == "py" and isinstance(itsv.py, tuple) and itsv.py[0] == "items":
+            d, dnode = itsv.py[1][0], itsv.py[2]
+            sq = self.hget(st, "$dkeys", d.t)
+            vals = self.hget(st, "$dval", d.t)
+            _, kh = type_hint(self.types.get("keys:" + ast.unparse(dnode), "v"))
+            _, vh = type_hint(self.types.get("values:" + ast.unparse(dnode), "v"))
+            return sq, (lambda i: SV("tuple", items=[SV("v", L.at(sq, i), kh), SV("v", Select(vals, L.at(sq, i)), vh)]))
         if itsv.kind == "py" and isinstance(itsv.py, tuple) and itsv.py[0] == "reversed":
             src = itsv.py[1][0]
             sq = L.rev(self.as_seq(src, st))
